@@ -1875,7 +1875,7 @@ func makeInterfaceArshaler(t reflect.Type) *arshaler {
 		// Optimize for the any type if there are no special options.
 		if optimizeCommon &&
 			t == anyType && !mo.Flags.Get(jsonflags.StringifyNumbers|jsonflags.TagFlags) &&
-			(mo.Marshalers == nil || !mo.Marshalers.(*Marshalers).fromAny) {
+			(mo.Marshalers == nil || !mo.Marshalers.(*Marshalers).handlesAny()) {
 			return marshalValueAny(enc, va.Elem().Interface(), mo)
 		}
 		return marshal(enc, v, mo)
@@ -1929,7 +1929,7 @@ func makeInterfaceArshaler(t reflect.Type) *arshaler {
 			// does not implement merge semantics.
 			if optimizeCommon &&
 				t == anyType && !uo.Flags.Get(jsonflags.AllowDuplicateNames|jsonflags.FormatTag) &&
-				(uo.Unmarshalers == nil || !uo.Unmarshalers.(*Unmarshalers).fromAny) {
+				(uo.Unmarshalers == nil || !uo.Unmarshalers.(*Unmarshalers).handlesAny()) {
 				v, err := unmarshalValueAny(dec, uo)
 				// We must check for nil interface values up front.
 				// See https://go.dev/issue/52310.
